@@ -387,6 +387,44 @@ def _check_element_order(ctx, prog, exp_ci):
         raise AnalysisError("no groupby over the element id found in the exporter")
 
 
+def _table_driven_level(fi, e):
+    """the level name when it comes out of a module-level literal table: `level, what = _TABLE[<constant key>]` -> the string"""
+    mod = fi.module.tree
+
+    def mconst(n):
+        if isinstance(n, ast.Constant):
+            return n.value
+        if isinstance(n, ast.Name):
+            for st in mod.body:
+                if isinstance(st, ast.Assign) and len(st.targets) == 1 and isinstance(st.targets[0], ast.Name) and st.targets[0].id == n.id and \
+                        isinstance(st.value, ast.Constant):
+                    return st.value.value
+        return None
+    if not isinstance(e, ast.Name):
+        return None
+    for st in walk_function(fi.node):
+        if isinstance(st, ast.Assign) and len(st.targets) == 1:
+            t, v, pos = st.targets[0], st.value, None
+            if isinstance(t, ast.Tuple):
+                for i, x in enumerate(t.elts):
+                    if isinstance(x, ast.Name) and x.id == e.id:
+                        pos = i
+            elif isinstance(t, ast.Name) and t.id == e.id:
+                pos = -1
+            if pos is None or not (isinstance(v, ast.Subscript) and isinstance(v.value, ast.Name)):
+                continue
+            key = mconst(v.slice)
+            for ms in mod.body:
+                if isinstance(ms, ast.Assign) and len(ms.targets) == 1 and isinstance(ms.targets[0], ast.Name) and \
+                        ms.targets[0].id == v.value.id and isinstance(ms.value, ast.Dict):
+                    for k_, val in zip(ms.value.keys, ms.value.values):
+                        if k_ is not None and mconst(k_) == key and key is not None:
+                            item = val.elts[pos] if pos >= 0 and isinstance(val, (ast.Tuple, ast.List)) and pos < len(val.elts) else val
+                            if isinstance(item, ast.Constant) and isinstance(item.value, str):
+                                return item.value
+    return None
+
+
 def _check_set_levels(ctx, prog, exp_ci):
     """R-C20-15: a node set is validated against the node ids of the mesh, an element set against its element ids.  The index
     level literals reaching get_level_values (directly or as arguments of a helper of the exporter) in add_node_set are exactly
@@ -397,6 +435,14 @@ def _check_set_levels(ctx, prog, exp_ci):
         if fi is None:
             raise AnalysisError("VMAPExport.%s vanished" % meth)
         lits = set()
+        from ..inline import inlined as _inl
+        fi = _inl(prog, fi)
+        for c in ast.walk(fi.node):
+            if isinstance(c, ast.Call) and isinstance(c.func, ast.Attribute) and c.func.attr == "get_level_values" and c.args and \
+                    not isinstance(c.args[0], ast.Constant):
+                v = _table_driven_level(fi, c.args[0])
+                if v is not None:
+                    lits.add(v)
         for c in ast.walk(fi.node):
             if isinstance(c, ast.Call):
                 direct = isinstance(c.func, ast.Attribute) and c.func.attr in ("get_level_values", "unique", "isin", "droplevel")
